@@ -318,3 +318,47 @@ Arguments sstep {key val} key_eqb oracle.
 Arguments sreach {key val} key_eqb oracle s0.
 Arguments in_read {key val} x.
 Arguments in_write {key val} x.
+
+(* ------------------------------------------------------------------------------------------------------------
+   The faithful sequential model: findTypeNoCache first looks among the dependencies of the package being checked
+   (findDependency) and only then asks the importer, so what a miss computes depends on the calling context as well
+   -- while the cache is keyed by the name alone.  [run_dep] is what the implementation does; it coincides with
+   [run_seq] (and the theorems above apply) exactly when the oracle does not depend on the context. *)
+Section Dep.
+  Variables key val ctx : Type.
+  Variable key_eqb : key -> key -> bool.
+  Variable oracle2 : ctx -> key -> option val.
+
+  Definition find_dep (c : cache key val) (p : ctx) (k : key) : option val * cache key val :=
+    match lookup key_eqb k c with
+    | Some v => (Some v, c)
+    | None => match oracle2 p k with
+              | Some v => (Some v, store k v c)
+              | None => (None, c)
+              end
+    end.
+
+  Fixpoint run_dep (c : cache key val) (ops : list (ctx * key)) : list (option val) * cache key val :=
+    match ops with
+    | [] => ([], c)
+    | (p, k) :: r => let '(res, c1) := find_dep c p k in
+                     let '(rs, c2) := run_dep c1 r in (res :: rs, c2)
+    end.
+
+  (* what a lone call on a fresh engine (cache c0) returns *)
+  Definition lone (c0 : cache key val) (op : ctx * key) : option val := fst (find_dep c0 (fst op) (snd op)).
+
+  Lemma run_dep_indep (p0 : ctx) :
+    (forall p q k, oracle2 p k = oracle2 q k) ->
+    forall ops c, run_dep c ops = run_seq key_eqb (oracle2 p0) c (map snd ops).
+  Proof.
+    intros Ind. induction ops as [|[p k] r IH]; intros c; cbn; [reflexivity|].
+    unfold find_dep, find_seq. rewrite (Ind p p0 k).
+    destruct (lookup key_eqb k c); [rewrite IH; reflexivity|].
+    destruct (oracle2 p0 k); rewrite IH; reflexivity.
+  Qed.
+End Dep.
+
+Arguments find_dep {key val ctx} key_eqb oracle2 c p k.
+Arguments run_dep {key val ctx} key_eqb oracle2 c ops.
+Arguments lone {key val ctx} key_eqb oracle2 c0 op.
